@@ -4,6 +4,9 @@
 // large stack (the syntax table of ruschm is thread-local, so a fresh thread is a fresh
 // world). What the interpreter writes to the process's standard output (display, newline) is
 // captured by redirecting fd 1 into a scratch file; protocol output goes to the original fd 1.
+// Every match on an enum of the repository ends in a wildcard arm: a new variant (a new error kind, a new
+// kind of value) must not stop this harness from compiling.
+#![allow(unreachable_patterns)]
 use ruschm::environment::Environment;
 use ruschm::error::{ErrorData, SchemeError, ToLocated};
 use ruschm::interpreter::error::LogicError;
@@ -50,6 +53,7 @@ fn show_number(n: &Num) -> String {
         Number::Integer(i) => format!("i{}", i),
         Number::Rational(a, b) => format!("q{}/{}", a, b),
         Number::Real(r) => show_real(*r),
+        _ => "(number-of-unknown-kind)".to_string(),
     }
 }
 
@@ -83,6 +87,7 @@ pub fn syntax_kind(e: &SyntaxError) -> &'static str {
         MacroKeywordMissMatch(..) => "MacroKeywordMissMatch",
         TransformOutMultipleDatum => "TransformOutMultipleDatum",
         Extension(..) => "SyntaxExtension",
+        _ => "SyntaxErrorOfUnknownKind",
     }
 }
 
@@ -103,6 +108,7 @@ pub fn logic_kind(e: &LogicError) -> &'static str {
         Extension(..) => "LogicExtension",
         LibraryNotFound(..) => "LibraryNotFound",
         LibraryImportCyclic(..) => "LibraryImportCyclic",
+        _ => "LogicErrorOfUnknownKind",
     }
 }
 
@@ -111,6 +117,7 @@ pub fn show_err(e: &SchemeError) -> String {
         ErrorData::Syntax(s) => syntax_kind(s),
         ErrorData::Logic(l) => logic_kind(l),
         ErrorData::IO(_) => "IOError",
+        _ => "ErrorOfUnknownKind",
     };
     let loc = match e.location {
         Some([l, c]) => format!("{}:{}", l, c),
@@ -229,6 +236,7 @@ fn show_value(w: &mut World, v: &Val, depth: usize) -> String {
         },
         Value::Transformer(_) => "(transformer)".to_string(),
         Value::Void => "(void)".to_string(),
+        _ => "(value-of-unknown-kind)".to_string(),
     }
 }
 
